@@ -1662,6 +1662,14 @@ fn bind_typed_parameter_list(
     context: &mut Context,
 ) -> Option<Vec<SymbolIdResult>> {
     inparam_list.map(|param_list| {
+        // Old-style parameters (eg. `creg c[2]`, `qreg q`) are not supported. They are direct
+        // children of the list, not `TypedParam`s, so they must be reported here.
+        for old_param in synast::AstNode::syntax(&param_list)
+            .children()
+            .filter_map(<synast::OldTypedParam as synast::AstNode>::cast)
+        {
+            context.insert_error(NotImplementedError, &old_param);
+        }
         param_list
             .typed_params()
             .map(|param| {
